@@ -361,7 +361,11 @@ func c15RunScale(v int64, from, to string) c15ScaleObs {
 // by the property: the largest unit keeping the magnitude >= 1, the family default when there is
 // none.  tau > 0 widens the comparison with 1 where float rounding can decide either way.
 func (st *c15State) acceptableAuto(fam *c15Family, v int64, sf *big.Rat, exact bool) map[string]*big.Rat {
-	M := c15abs(new(big.Rat).Mul(new(big.Rat).SetInt64(v), sf))
+	return st.acceptableAutoM(fam, c15abs(new(big.Rat).Mul(new(big.Rat).SetInt64(v), sf)), exact)
+}
+
+// acceptableAutoM: the same for a magnitude M (in reference units of the family).
+func (st *c15State) acceptableAutoM(fam *c15Family, M *big.Rat, exact bool) map[string]*big.Rat {
 	one := big.NewRat(1, 1)
 	lo, hi := new(big.Rat).Set(one), new(big.Rat).Set(one)
 	if !exact {
